@@ -216,11 +216,43 @@ def run(R):
             R.violation("C12.iter", "cli|" + bf.spath.split("::")[-1] + "|order",
                         "the CLI reorders / filters the input files (%s): lines are not presented in command-line order"
                         % [short(c.name).split("::")[-1] for c in reorder], [bf.loc()])
+    # every query reads its files from the first byte: the handles come from File::open for this query, never from a handle that an
+    # earlier query has already advanced (`try_clone` shares the cursor of the handle it clones)
+    R.rule("C12.fresh", "the File handles given to a FileExecutor are opened (File::open) by the function that builds the executor for this "
+                        "query; File::try_clone, whose clones share one cursor, is not used")
+    clones = [(g, c) for g in P.fns.values() for c in g.calls if short(c.name) == "std::fs::File::try_clone"]
+    if clones:
+        g, c = clones[0]
+        R.violation("C12.fresh", "try_clone|%s" % E_owner_name(P, g), "%s hands out File::try_clone handles: all clones share the cursor of the "
+                    "file they were cloned from, so a second query over the same files starts where the first one stopped and misses lines"
+                    % g.path, [c.loc()])
+    builders = [g for g in P.fns.values() if g.target == "bin" and
+                any(re.search(r"executor::FileExecutor::(new|with_output_printer)$", short(c.name)) for c in g.calls)]
+    for g in builders:
+        owner_name = E_owner_name(P, g)
+        for c in g.calls:
+            if not re.search(r"executor::FileExecutor::(new|with_output_printer)$", short(c.name)):
+                continue
+            fa_ = [a_ for a_ in c.args if "alloc::vec::Vec<std::fs::File>" in (a_.get("ty") or "")]
+            if not fa_:
+                continue
+            os_ = F.origins(g, fa_[0], depth=10)
+            if any(o.kind == "arg" for o in os_):
+                R.violation("C12.fresh", "%s|files-from-outside" % owner_name, "%s builds the executor from File handles it received (opened "
+                            "elsewhere, possibly read before) instead of opening them for this query" % g.path, [c.loc()])
+            elif not clones:
+                R.ok("C12.fresh", owner_name, "the executor's files are opened in the function that builds it", c.loc())
     from . import rules_c01
     rules_c01.total_paths(R, "C12.present")
     R.floor("C12.once", 2)
     R.floor("C12.err", 2)
     R.assume("BufRead::lines yields every line once, in order, including a final line without newline, CRLF and empty lines (std)")
+
+
+def E_owner_name(P, g):
+    while g.kind == "Closure" and g.parent_key in P.fns:
+        g = P.fns[g.parent_key]
+    return g.spath.split("::")[-1]
 
 
 def _check_err(R, f, lp, short_name):
